@@ -126,7 +126,7 @@ class CassetteFile(VirtualFileContainer):
         raw_file_name = []
         for name_offset in range(8):
             raw_file_name.append(self.buffer[pointer + name_offset])
-        coco_file_name = bytearray(raw_file_name).decode("utf-8")
+        coco_file_name = bytearray(raw_file_name).decode("latin-1")
         pointer += 8
         return coco_file_name, pointer
 
